@@ -180,7 +180,7 @@ def _run(ctx):
         return _cache["run"]
     ex = waterlib.prepare_examples(ctx, extreme_rain=False)
     rnd = random.Random(ctx.seed * 104729 + 16)
-    n = 256 if ctx.thorough else 64
+    n = 3000 if ctx.thorough else 64
     cases = [make_case(rnd, i) for i in range(n)]
     lines = [write_project(ex, c) for c in cases]
     lf = os.path.join(ctx.work, "c16_lines.txt")
@@ -279,7 +279,7 @@ def correspond(ctx):
               ("rot", rot, "rot_check", "(int * int * (list int * list int * list int) * list (int * int * int))")]
     items, index = [], {}
     for name, lst, chk, ty in groups:
-        shard = max(1, (len(lst) + 3) // 4)
+        shard = max(1, (len(lst) + 7) // 8)
         for k in range(0, len(lst), shard):
             nm = "Cases_C16_%s_%d" % (name, k // shard)
             index[nm] = (name, lst, k)
